@@ -22,9 +22,9 @@ func (c *c14NullChannel) Name() string { return "c14-null" }
 func (c *c14NullChannel) Send(ctx context.Context, m net.TaggedMarshaler, s ...net.RetransmissionStrategy) error {
 	return nil
 }
-func (c *c14NullChannel) Recv(ctx context.Context, handler func(m net.Message))       {}
-func (c *c14NullChannel) SetUnmarshaler(unmarshaler func() net.TaggedUnmarshaler)    {}
-func (c *c14NullChannel) SetFilter(filter net.BroadcastChannelFilter) error          { return nil }
+func (c *c14NullChannel) Recv(ctx context.Context, handler func(m net.Message))   {}
+func (c *c14NullChannel) SetUnmarshaler(unmarshaler func() net.TaggedUnmarshaler) {}
+func (c *c14NullChannel) SetFilter(filter net.BroadcastChannelFilter) error       { return nil }
 
 func c14InitialState(memberIndex group.MemberIndex, groupSize, dishonest int, seed *big.Int) (state.SyncState, error) {
 	member, err := NewMember(&testutils.MockLogger{}, memberIndex, groupSize, dishonest, nil, seed, seed.Text(16))
